@@ -33,31 +33,29 @@ def evNotForSid (sid : Sid) : Ev → Bool
   | .push s _ => s != sid
   | _ => true
 
-/-- `http_ops::process_commands` over the already `;`-split statements: an error pushes its
-message; a success pops one queued line of the request's own channel, or `empty`. -/
-def httpLoop (sid : Sid) : List Bytes → Node → List Bytes → List Bytes → List Ev → Node × List Bytes × List Bytes × List Ev
-  | [], n, queue, resps, evs => (n, queue, resps, evs)
-  | stmt :: rest, n, queue, resps, evs =>
+/-- the reply entry of one executed statement: its error text, else the first line it pushed on
+the request's own channel, else `empty` (whatever else it queued is discarded) -/
+def httpEntry (sid : Sid) (r : Resp) (es : List Ev) : Bytes :=
+  match r with
+  | .error msg => msg
+  | .versionError msg .. => msg
+  | _ => ((es.filterMap (evForSid sid)).head?).getD b!"empty"
+
+/-- `http_ops::process_commands` over the already `;`-split statements -/
+def httpLoop (sid : Sid) : List Bytes → Node → List Bytes → List Ev → Node × List Bytes × List Ev
+  | [], n, resps, evs => (n, resps, evs)
+  | stmt :: rest, n, resps, evs =>
     let c := Bytes.trimWs stmt
-    if c = [] then httpLoop sid rest n queue resps evs
+    if c = [] then httpLoop sid rest n resps evs
     else
       match n.exec sid c with
-      | (n, r, es) =>
-        let queue := queue ++ es.filterMap (evForSid sid)
-        let evs := evs ++ es.filter (evNotForSid sid)
-        match r with
-        | .error msg => httpLoop sid rest n queue (resps ++ [msg]) evs
-        | .versionError msg .. => httpLoop sid rest n queue (resps ++ [msg]) evs
-        | _ =>
-          match queue with
-          | q :: qs => httpLoop sid rest n qs (resps ++ [q]) evs
-          | [] => httpLoop sid rest n [] (resps ++ [b!"empty"]) evs
+      | (n, r, es) => httpLoop sid rest n (resps ++ [httpEntry sid r es]) (evs ++ es.filter (evNotForSid sid))
 
 /-- one HTTP request: fresh session, statements, disconnect; reply = entries joined by `;` -/
 def Node.http (n : Node) (sid : Sid) (body : Bytes) : Node × Bytes × List Ev :=
   let n := n.setSession sid {}
-  match httpLoop sid (Bytes.splitAll 59 body) n [] [] [] with
-  | (n, _, resps, evs) =>
+  match httpLoop sid (Bytes.splitAll 59 body) n [] [] with
+  | (n, resps, evs) =>
     match n.close sid with
     | (n, evs2) => (n, Bytes.join [59] resps, evs ++ evs2.filter (evNotForSid sid))
 
